@@ -249,21 +249,45 @@ func init() {
 	}
 	externals["fmt.Sprintf"] = func(u *Unit, fr *frame, st *State, c *ssa.Function, a []Value, rt types.Type, pos token.Pos) Value {
 		// deterministic uninterpreted function of the format and the (boxed) arguments when their number is known
+		anyT := types.NewInterfaceType(nil, nil)
+		var boxed []Term
+		ok := false
 		if len(a) == 2 {
-			if sl, ok := a[1].(SliceV); ok {
+			if sl, isSl := a[1].(SliceV); isSl {
 				if n, isLit := smallLit(sl.Len); isLit && n <= 8 && sl.Off.S == "0" {
-					anyT := types.NewInterfaceType(nil, nil)
-					arr := u.heapGet(st, cellFam(anyT), ArrSort(SInt, SInt))
-					sorts := []string{SStr}
-					ts := []Term{u.asSc(a[0], nil).T}
+					arr := u.heapGet(st, cellFam(sl.Elem), ArrSort(SInt, SInt))
 					for i := int64(0); i < n; i++ {
-						sorts = append(sorts, SInt)
-						ts = append(ts, Select(arr, u.elemAddr(sl.Arr, IntLit(i))))
+						boxed = append(boxed, Select(arr, u.elemAddr(sl.Arr, IntLit(i))))
 					}
-					f := u.ctx.Fun(fmt.Sprintf("fmt.Sprintf#%d", n), sorts, SStr)
-					return Sc{app(f, SStr, ts...), types.Typ[types.String]}
+					ok = true
 				}
 			}
+		}
+		if !ok && len(a) >= 1 && len(a) <= 9 {
+			// called from a specification with the variadic arguments spelled out: box them the way the compiler does
+			ok = true
+			for _, v := range a[1:] {
+				t := valueType(v)
+				if _, isSl := v.(SliceV); isSl || t == nil {
+					ok = false
+					break
+				}
+				if isInterfaceType(t) {
+					boxed = append(boxed, u.asSc(v, t).T)
+				} else {
+					boxed = append(boxed, u.asSc(u.makeInterface(v, t, anyT), anyT).T)
+				}
+			}
+		}
+		if ok {
+			sorts := []string{SStr}
+			ts := []Term{u.asSc(a[0], nil).T}
+			for _, b := range boxed {
+				sorts = append(sorts, SInt)
+				ts = append(ts, b)
+			}
+			f := u.ctx.Fun(fmt.Sprintf("fmt.Sprintf#%d", len(boxed)), sorts, SStr)
+			return Sc{app(f, SStr, ts...), types.Typ[types.String]}
 		}
 		return Sc{u.ctx.Fresh("str", SStr), types.Typ[types.String]}
 	}
